@@ -73,7 +73,8 @@ impl ClientSession {
         if let Some(v) = get_num::<u128>(&kv, "base")? { builder.with_base_reconnect_period(duration_of_nanos(v)); }
         if let Some(v) = get_num::<u128>(&kv, "max")? { builder.with_max_reconnect_period(duration_of_nanos(v)); }
         if let Some(v) = get_num::<u128>(&kv, "stable")? { builder.with_reconnect_stability_reset_period(duration_of_nanos(v)); }
-        if let Some(v) = get_num::<u64>(&kv, "ctimeout")? { builder.with_connect_timeout(Duration::from_millis(v)); }
+        if get(&kv, "ctimeout") == Some("max") { builder.with_connect_timeout(Duration::MAX); }
+        else if let Some(v) = get_num::<u64>(&kv, "ctimeout")? { builder.with_connect_timeout(Duration::from_millis(v)); }
         if let Some(v) = get_num::<u64>(&kv, "pingto")? { builder.with_ping_timeout(Duration::from_millis(v)); }
         let events = self.events.clone();
         let spawner: CallbackSpawnerFunction = Box::new(|event, callback| { (callback)(event) });
